@@ -483,6 +483,10 @@ class Gen(object):
         if r.random() < 0.9:
             val = self.val_for(fmt, rounding, shape, val_kind) if shape else \
                 self.scalar_spec(self.value(fmt, rounding, val_kind))
+        if 'F2' in self.p.faults and val_kind is None and r.random() < 0.03:
+            # fault F2: a value the constructor cannot take (rejected half-way through the construction,
+            # possibly under a template or with like= / config= sources that must stay untouched)
+            val = ['x', r.choice(['dict', 'set', 'str', 'ragged'])]
         op = {'op': 'new', 'val': val, 'fmt': list(fmt), 'kw': kw}
         if ncb is None:
             ncb = r.choice([1, 1, 2]) if r.random() < self.p.p_cb else 0
